@@ -428,53 +428,76 @@ Proof. revert l. induction n as [|n IH]; intros l; [tauto|]. destruct l as [|a r
 Lemma allP_in {A} (P : A -> Prop) l a : allP P l -> In a l -> P a.
 Proof. induction l as [|b r IH]; cbn; [tauto|]. intros [H1 H2] [<-|H]; [exact H1|apply IH; assumption]. Qed.
 
+Lemma in_firstn {A} n (l : list A) a : In a (firstn n l) -> In a l.
+Proof. revert l. induction n as [|n IH]; intros l; cbn; [tauto|]. destruct l as [|b r]; cbn; [tauto|]. intros [H|H]; [left; exact H|right; apply IH; exact H]. Qed.
+
 Section Call.
 Variable k : nat.
 Hypothesis IHe : forall e Gf lm, wf_expr funcs S e -> frames_in_L lm -> frames_in_L Gf ->
   (forall x, In x (vars e) -> ghosts_ok Gf x) -> sim Gf lm (meval true funcs k e) (eval funcs k e).
 Hypothesis IHx : forall st lm, wf_stmt funcs L S st -> frames_in_L lm -> sim [] lm (mexec true funcs k st) (exec funcs k st).
 
+Lemma meval_call_steps f args ms :
+  meval true funcs (Datatypes.S k) (ECall f args) ms =
+  match find_func f funcs with
+  | None => (Fail EUnbound, ms)
+  | Some fd =>
+      if (Nat.ltb (List.length args) (required (fparams fd))) || (Nat.ltb (List.length (fparams fd)) (List.length args))
+      then (Fail EArity, pop_frame_st (snd (m_push_frame f ms)))
+      else
+        match dbind_args (meval true funcs k) (fparams fd) args (snd (m_push_frame f ms)) with
+        | (Val _, ms1) =>
+            (call_result (fret fd) (fst ((bind_params (meval true funcs k) (skipn (List.length args) (fparams fd)) [] ;;; exec_list (mexec true funcs k) (fbody fd)) ms1)),
+             pop_frame_st (snd ((bind_params (meval true funcs k) (skipn (List.length args) (fparams fd)) [] ;;; exec_list (mexec true funcs k) (fbody fd)) ms1)))
+        | (c, ms1) => (call_result (fret fd) (recast c tt), pop_frame_st ms1)
+        end
+  end.
+Proof.
+  rewrite meval_call_eq. destruct (find_func f funcs) as [fd|]; [|reflexivity].
+  unfold bind at 1. change (m_push_frame f ms) with (Val tt, snd (m_push_frame f ms)). lazy beta iota. cbn [snd].
+  destruct (_ || _); [reflexivity|]. unfold finally, map_ctl. rewrite bind_unfold.
+  destruct (dbind_args (meval true funcs k) (fparams fd) args (snd (m_push_frame f ms))) as [c ms1]. destruct c; try reflexivity.
+  destruct ((bind_params (meval true funcs k) (skipn (List.length args) (fparams fd)) [] ;;; exec_list (mexec true funcs k) (fbody fd)) ms1) as [c3 ms3].
+  reflexivity.
+Qed.
+
 Lemma call_sim f args Gf lm :
   wf_expr funcs S (ECall f args) -> frames_in_L lm -> frames_in_L Gf ->
   (forall x, In x (vars (ECall f args)) -> ghosts_ok Gf x) ->
   sim Gf lm (meval true funcs (Datatypes.S k) (ECall f args)) (eval funcs (Datatypes.S k) (ECall f args)).
 Proof.
-  intros Hwf Hlm HGf Hgh rs HI Hn. rewrite meval_call_eq. rewrite eval_call_eq in *.
+  intros Hwf Hlm HGf Hgh rs HI Hn. rewrite meval_call_steps. rewrite eval_call_steps in *.
   cbn [wf_expr] in Hwf. destruct Hwf as [Hwa Hok].
   destruct (find_func f funcs) as [fd|] eqn:Ef; [|exfalso; apply Hn; reflexivity].
   pose proof (sc_funcs _ _ _ _ SC fd (find_func_in f fd Ef)) as [Hwp Hwb].
   destruct ((List.length args <? required (fparams fd))%nat || (List.length (fparams fd) <? List.length args)%nat) eqn:Ear.
   - (* wrong argument count: the callee's scope is pushed, the test fails, the scope is popped *)
-    split; [|exact HI]. destruct HI as [[C [lr [Hfr HC]]] _ _].
-    unfold bind, m_push_frame, finally, fail, pop_frame_st, emb. cbn. reflexivity.
+    split; [|exact HI]. reflexivity.
   - apply orb_false_iff in Ear as [Ear1 Ear2]. apply Nat.ltb_ge in Ear1, Ear2.
-    unfold bind at 1 in Hn |- *. unfold bind at 1.
+    pose proof (eval_args_frames funcs k (fparams fd) args rs) as Hsame.
+    pose proof (vf_eval_args _ (fparams fd) args (eval_vf funcs k) rs) as Hvf.
     destruct (eval_args (eval funcs k) (fparams fd) args rs) as [c rs1] eqn:Ea.
-    pose proof (eval_args_frames funcs k (fparams fd) args rs) as Hsame. rewrite Ea in Hsame. unfold frames_same in Hsame. cbn [snd] in Hsame.
-    pose proof (vf_eval_args _ (fparams fd) args (eval_vf funcs k) rs) as Hvf. rewrite Ea in Hvf. cbn [fst] in Hvf.
+    unfold frames_same in Hsame. cbn [fst snd] in Hsame, Hvf.
     assert (Hn1 : c <> Fail EUnbound).
     { intros ->. apply Hn. reflexivity. }
     destruct (args_sim k IHe f Gf lm Hlm HGf args (fparams fd) [] [] rs c rs1 HI) as [HI1 [acc' [Hm Hacc']]]; try assumption.
     { cbn. intros x Hx. congruence. }
     { eapply allP_impl; [|exact Hwp]. cbn. tauto. }
     change (snd (m_push_frame f (emb Gf lm rs))) with (emb (Fr f [] :: Gf) lm rs).
-    unfold m_push_frame at 1. cbn [fst].
-    change {| sglob := sglob (emb Gf lm rs); sframes := {| ffn := f; fscopes := [[]] |} :: sframes (emb Gf lm rs);
-              sstat := sstat (emb Gf lm rs); sout := sout (emb Gf lm rs) |} with (emb (Fr f [] :: Gf) lm rs).
-    unfold finally, map_ctl. unfold bind at 1. rewrite Hm.
+    rewrite Hm.
     destruct HI1 as [[C [lr [Hfr1 HC]]] HG1 HS1].
     destruct c as [vs| | |rv|e0]; try contradiction.
     2: { (* an argument failed *)
-      cbn [recast fst snd]. split; [|constructor; [eexists _, _; split; [exact Hfr1|exact HC]|exact HG1|exact HS1]].
-      unfold pop_frame_st, emb. cbn. reflexivity. }
+      cbn [recast fst snd call_result]. split; [|constructor; [eexists _, _; split; [exact Hfr1|exact HC]|exact HG1|exact HS1]].
+      reflexivity. }
     cbn [recast]. specialize (Hacc' vs eq_refl). subst acc'.
     (* Ref: push the frame, bind the supplied values *)
-    set (n := List.length args).
+    set (n := List.length args) in *.
     assert (Hlv : List.length vs = n) by (eapply eval_args_length; exact Ea).
     assert (Hae : args_eval (eval funcs k) (fparams fd) args rs vs rs1) by (apply eval_args_spec; [exact Ear2|exact Ea]).
     pose proof (args_eval_coerced _ _ _ _ _ _ Hae) as HF2. rewrite Hlv in HF2.
     assert (Hps : fparams fd = firstn n (fparams fd) ++ skipn n (fparams fd)) by (symmetry; apply firstn_skipn).
-    assert (Hl1 : List.length vs = List.length (firstn n (fparams fd))) by (rewrite firstn_length; unfold n in *; lia).
+    assert (Hl1 : List.length vs = List.length (firstn n (fparams fd))) by (rewrite firstn_length; lia).
     set (rs2 := with_top_scope rs1 f (bound_scope (firstn n (fparams fd)) vs []) (sframes rs1)).
     assert (Hsup : bind_params (eval funcs k) (fparams fd) vs (snd (m_push_frame f rs1)) =
                    bind_params (eval funcs k) (skipn n (fparams fd)) [] rs2).
@@ -482,15 +505,20 @@ Proof.
       unfold bind.
       change (snd (m_push_frame f rs1)) with (with_top_scope rs1 f [] (sframes rs1)).
       rewrite (bind_params_supplied _ _ vs rs1 f [] (sframes rs1)); [reflexivity|exact Hl1|exact HF2]. }
+    assert (Hshape : (bind_params (eval funcs k) (fparams fd) vs ;;; exec_list (exec funcs k) (fbody fd)) (snd (m_push_frame f rs1)) =
+                     (bind_params (eval funcs k) (skipn n (fparams fd)) [] ;;; exec_list (exec funcs k) (fbody fd)) rs2).
+    { unfold bind. rewrite Hsup. reflexivity. }
+    pose proof (call_inside_below funcs k (fparams fd) vs (fbody fd) (snd (m_push_frame f rs1))) as Hbel.
+    rewrite Hshape in *.
     (* the Mech state is the embedding of Ref's state after binding *)
     assert (Hemb : emb (Fr f (bound_scope (fparams fd) vs []) :: Gf) lm rs1 = emb [] (Gf ++ C :: lm) rs2).
-    { unfold emb, rs2, with_top_scope, Fr. cbn. rewrite Hfr1. cbn. rewrite <- Hlv, bound_scope_firstn. rewrite <- app_assoc. reflexivity. }
+    { unfold emb, rs2, with_top_scope, Fr. cbn. rewrite Hfr1. cbn. rewrite <- Hlv, bound_scope_firstn. reflexivity. }
     rewrite Hemb.
     assert (HI2 : Inv rs2).
     { constructor; cbn; [|exact HG1|exact HS1]. eexists _, _. split; [reflexivity|]. cbn.
       intros x Hx. cbn in Hx. destruct (assoc x (bound_scope (firstn n (fparams fd)) vs [])) eqn:Eb; [|congruence].
       destruct (bound_scope_names (firstn n (fparams fd)) vs [] x) as [Hb|Hb]; [rewrite Eb; discriminate|cbn in Hb; congruence|].
-      apply in_map_iff in Hb as [p [<- Hp]]. apply (allP_in _ _ p Hwp). eapply In_firstn_incl. exact Hp. }
+      apply in_map_iff in Hb as [p [<- Hp]]. apply (allP_in _ _ p Hwp). eapply in_firstn. exact Hp. }
     assert (Hlm' : frames_in_L (Gf ++ C :: lm)) by (apply frames_in_L_mid; assumption).
     (* defaults and body run in body mode above the enlarged lower stack *)
     assert (Hbody : sim [] (Gf ++ C :: lm)
@@ -500,26 +528,12 @@ Proof.
       - apply bind_defaults_sim. apply allP_skipn. eapply allP_impl; [|exact Hwp]. cbn. intros p _ [HpL Hd]. split; [exact HpL|].
         destruct (pdef p) as [d|]; [|exact I]. apply IHe; [exact Hd|exact Hlm'|intros x; unfold bound_in; cbn; congruence|intros x _; apply ghosts_nil].
       - intros _. apply exec_list_sim. eapply allP_impl; [|exact Hwb]. cbn. intros st _ Hst. apply IHx; [exact Hst|exact Hlm']. }
-    (* put Ref's computation in that shape *)
-    unfold bind at 1 in Hn. unfold m_push_frame at 1 in Hn. unfold finally, map_ctl in Hn.
-    unfold bind at 1. unfold m_push_frame at 1. cbn [fst].
-    assert (Hshape : (bind_params (eval funcs k) (fparams fd) vs ;;; exec_list (exec funcs k) (fbody fd)) (snd (m_push_frame f rs1)) =
-                     (bind_params (eval funcs k) (skipn n (fparams fd)) [] ;;; exec_list (exec funcs k) (fbody fd)) rs2).
-    { unfold bind. rewrite Hsup. reflexivity. }
-    change {| sglob := sglob rs1; sframes := {| ffn := f; fscopes := [[]] |} :: sframes rs1; sstat := sstat rs1; sout := sout rs1 |}
-      with (snd (m_push_frame f rs1)) in *.
-    rewrite Hshape in *.
-    pose proof (call_inside_below funcs k (fparams fd) vs (fbody fd) (snd (m_push_frame f rs1))) as Hbel. rewrite Hshape in Hbel.
     specialize (Hbody rs2 HI2).
     destruct ((bind_params (eval funcs k) (skipn n (fparams fd)) [] ;;; exec_list (exec funcs k) (fbody fd)) rs2) as [c3 rs3] eqn:E3.
     cbn [fst snd] in *.
     destruct Hbody as [Hm3 HI3]; [apply (call_result_unbound (fret fd)); exact Hn|].
-    unfold bind at 1 in Hm3.
-    match goal with |- context [match ?X with (c, s') => _ end] => idtac | _ => idtac end.
-    (* the Mech side: dbind_args done, continue with the defaults and the body *)
-    match type of Hm3 with ?lhs = _ =>
-      match goal with |- context [lhs] => rewrite Hm3 | _ => idtac end end.
-    destruct Hbel as [Htl _]. cbn [snd] in Htl. cbn in Htl.
+    rewrite Hm3. cbn [fst snd].
+    destruct Hbel as [Htl _]. cbn in Htl.
     destruct HI3 as [[C3 [lr3 [Hfr3 HC3]]] HG3 HS3].
     rewrite Hfr3 in Htl. cbn in Htl. subst lr3.
     split.
@@ -528,4 +542,172 @@ Proof.
 Qed.
 End Call.
 
+
+(* ------------------------------------------------------------------ statements: helpers *)
+Lemma lval_target_sim lm evm evr lv :
+  match lv with LVar _ => True | LIdx _ idx => allP (fun e => sim [] lm (evm e) (evr e)) idx end ->
+  sim [] lm (lval_target evm lv) (lval_target evr lv).
+Proof.
+  destruct lv as [x|a idx]; cbn [lval_target]; [intros _; apply sim_ret|].
+  intros H. apply sim_bind; [apply eval_list_sim; exact H|]. intros. apply sim_ret.
+Qed.
+
+Lemma mexec_static_eq k cst t x init : mexec true funcs (Datatypes.S k) (SDecl cst true t x init) =
+  (v <- lit_or (meval true funcs k) init ;;
+   lift (coerce t v) ;;;
+   known <- m_static_known x ;;
+   if known then ret tt
+   else v2 <- (match init with Some e => meval true funcs k e | None => ret 0 end) ;; d_static_raw cst t x v2).
+Proof. reflexivity. Qed.
+
+Lemma static_decl_sim k lm cst t x init :
+  In x S -> static_init_ok t init ->
+  sim [] lm (mexec true funcs (Datatypes.S k) (SDecl cst true t x init)) (exec funcs (Datatypes.S k) (SDecl cst true t x init)).
+Proof.
+  intros HxS Hinit rs HI Hn. rewrite mexec_static_eq. rewrite exec_static_decl_eq in *.
+  destruct HI as [[C [lr [Hfr HC]]] HG HS].
+  assert (Hinv : Inv rs) by (constructor; [eexists _, _; split; [exact Hfr|exact HC]|exact HG|exact HS]).
+  assert (Hz : exists z, coerce t z = Val z /\ lit_or (meval true funcs k) init = ret z /\
+                         (match init with Some e => meval true funcs k e | None => ret 0 end) (emb [] lm rs) =
+                         (fst ((match init with Some e => eval funcs k e | None => ret 0 end) rs), emb [] lm rs) /\
+                         snd ((match init with Some e => eval funcs k e | None => ret 0 end) rs) = rs /\
+                         (forall v, fst ((match init with Some e => eval funcs k e | None => ret 0 end) rs) = Val v -> v = z)).
+  { destruct init as [e|].
+    - destruct e; try contradiction. cbn in Hinit. exists z. split; [exact Hinit|]. split; [reflexivity|].
+      destruct k; cbn; repeat split; try reflexivity; intros v; [discriminate|intros [= <-]; reflexivity].
+    - exists 0. split; [apply coerce_zero|]. cbn. repeat split; try reflexivity. intros v [= <-]. reflexivity. }
+  destruct Hz as [z [Hc [Hlit [Hev2 [Hst Hval]]]]]. rewrite Hlit.
+  unfold bind, ret, lift, m_static_known in *. rewrite Hc. rewrite (cur_fn_emb_nil lm rs C lr Hfr).
+  change (statics_of (cur_fn rs) (emb [] lm rs)) with (statics_of (cur_fn rs) rs).
+  destruct (assoc x (statics_of (cur_fn rs) rs)) eqn:Ek.
+  - split; [reflexivity|exact Hinv].
+  - rewrite Hev2.
+    destruct ((match init with Some e => eval funcs k e | None => (fun s : state => (Val 0, s)) end) rs) as [c1 rs1] eqn:E1. cbn [fst snd] in *. subst rs1.
+    destruct c1; try (split; [reflexivity|exact Hinv]).
+    specialize (Hval a eq_refl). subst a.
+    unfold m_declare, d_static_raw. rewrite coerce_all_one, Hc. rewrite Hfr.
+    rewrite (cur_fn_emb_nil lm rs C lr Hfr). unfold cur_fn. rewrite Hfr. cbn [fst snd].
+    split; [unfold emb, statics_of; cbn; rewrite ?Hfr; reflexivity|]. constructor; cbn; [eexists _, _; split; [first [exact Hfr|reflexivity]|exact HC]|exact HG|].
+    intros g y. unfold statics_of. cbn. destruct (Nat.eq_dec g (ffn C)) as [->|Hne].
+    + rewrite statics_of_set_same. cbn. destruct (Nat.eqb y x) eqn:Ey; [apply Nat.eqb_eq in Ey; subst y; intros _; exact HxS|apply HS].
+    + rewrite statics_of_set_other by congruence. apply HS.
+Qed.
+
+(* ------------------------------------------------------------------ the induction on fuel *)
+Theorem refine_all : forall k,
+  (forall e Gf lm, wf_expr funcs S e -> frames_in_L lm -> frames_in_L Gf ->
+     (forall x, In x (vars e) -> ghosts_ok Gf x) -> sim Gf lm (meval true funcs k e) (eval funcs k e)) /\
+  (forall st lm, wf_stmt funcs L S st -> frames_in_L lm -> sim [] lm (mexec true funcs k st) (exec funcs k st)).
+Proof.
+  induction k as [|k [IHe IHx]]; [split; intros; apply sim_fail|].
+  assert (IHl : forall es Gf lm, allP (wf_expr funcs S) es -> frames_in_L lm -> frames_in_L Gf ->
+            (forall x, In x (flat_map vars es) -> ghosts_ok Gf x) ->
+            allP (fun e => sim Gf lm (meval true funcs k e) (eval funcs k e)) es).
+  { intros es Gf lm Hw Hlm HGf Hgh. eapply allP_impl; [|exact Hw]. cbn. intros e He Hwe.
+    apply IHe; try assumption. intros x Hx. apply Hgh. eapply in_vars_flat; eassumption. }
+  assert (IHe0 : forall e lm, wf_expr funcs S e -> frames_in_L lm -> sim [] lm (meval true funcs k e) (eval funcs k e)).
+  { intros e lm Hw Hlm. apply IHe; [exact Hw|exact Hlm|intros x; unfold bound_in; cbn; congruence|intros x _; apply ghosts_nil]. }
+  assert (IHl0 : forall es lm, allP (wf_expr funcs S) es -> frames_in_L lm ->
+            allP (fun e => sim [] lm (meval true funcs k e) (eval funcs k e)) es).
+  { intros es lm Hw Hlm. apply IHl; [exact Hw|exact Hlm|intros x; unfold bound_in; cbn; congruence|intros x _; apply ghosts_nil]. }
+  assert (IHxl : forall ss lm, allP (wf_stmt funcs L S) ss -> frames_in_L lm ->
+            sim [] lm (exec_list (mexec true funcs k) ss) (exec_list (exec funcs k) ss)).
+  { intros ss lm Hw Hlm. apply exec_list_sim. eapply allP_impl; [|exact Hw]. cbn. intros st _ Hst. apply IHx; assumption. }
+  assert (IHb : forall ss lm, allP (wf_stmt funcs L S) ss -> frames_in_L lm ->
+            sim [] lm (blockm true (exec_list (mexec true funcs k) ss)) (in_block (exec funcs k) ss)).
+  { intros ss lm Hw Hlm. unfold in_block. apply block_sim. apply IHxl; assumption. }
+  assert (IHlv : forall lv lm, wf_lval funcs S lv -> frames_in_L lm ->
+            sim [] lm (lval_target (meval true funcs k) lv) (lval_target (eval funcs k) lv)).
+  { intros lv lm Hw Hlm. apply lval_target_sim. destruct lv; [exact I|]. apply IHl0; assumption. }
+  split.
+  - intros e Gf lm Hwf Hlm HGf Hgh. destruct e; cbn [wf_expr] in Hwf.
+    + apply sim_ret.
+    + apply read_sim; [exact Hlm|apply Hgh; left; reflexivity].
+    + cbn [meval eval]. apply sim_bind; [apply IHe; assumption|]. intros. apply sim_lift.
+    + destruct Hwf as [H1 H2]. cbn [meval eval].
+      apply sim_bind; [apply IHe; try assumption; intros x Hx; apply Hgh; cbn; apply in_or_app; left; exact Hx|]. intros.
+      apply sim_bind; [apply IHe; try assumption; intros x Hx; apply Hgh; cbn; apply in_or_app; right; exact Hx|]. intros. apply sim_lift.
+    + destruct Hwf as [H1 H2]. cbn [meval eval].
+      apply sim_bind; [apply IHe; try assumption; intros x Hx; apply Hgh; cbn; apply in_or_app; left; exact Hx|]. intros v.
+      destruct (v =? 0); [apply sim_ret|].
+      apply sim_bind; [apply IHe; try assumption; intros x Hx; apply Hgh; cbn; apply in_or_app; right; exact Hx|]. intros. apply sim_ret.
+    + destruct Hwf as [H1 H2]. cbn [meval eval].
+      apply sim_bind; [apply IHe; try assumption; intros x Hx; apply Hgh; cbn; apply in_or_app; left; exact Hx|]. intros v.
+      destruct (v =? 0); [|apply sim_ret].
+      apply sim_bind; [apply IHe; try assumption; intros x Hx; apply Hgh; cbn; apply in_or_app; right; exact Hx|]. intros. apply sim_ret.
+    + destruct Hwf as [H1 [H2 H3]]. cbn [meval eval].
+      apply sim_bind; [apply IHe; try assumption; intros x Hx; apply Hgh; cbn; apply in_or_app; left; exact Hx|]. intros v.
+      destruct (v =? 0); apply IHe; try assumption; intros x Hx; apply Hgh; cbn; apply in_or_app; right; apply in_or_app; [right|left]; exact Hx.
+    + apply call_sim; assumption.
+    + cbn [meval eval]. apply sim_bind.
+      * apply eval_list_sim. apply IHl; try assumption. intros x Hx. apply Hgh. right. exact Hx.
+      * intros. apply read_sim; [exact Hlm|apply Hgh; left; reflexivity].
+  - intros st lm Hwf Hlm. destruct st; cbn [wf_stmt] in Hwf.
+    + destruct sta.
+      * destruct Hwf as [H1 H2]. apply static_decl_sim; assumption.
+      * destruct Hwf as [H1 H2]. cbn [mexec exec].
+        apply sim_bind; [destruct init; [apply IHe0; assumption|apply sim_ret]|]. intros. apply declare_sim. exact H1.
+    + destruct Hwf as [H1 H2]. cbn [mexec exec].
+      apply sim_bind; [apply eval_list_sim; apply IHl0; assumption|]. intros. apply declare_sim. exact H1.
+    + destruct Hwf as [H1 H2]. destruct op; cbn [mexec exec].
+      * apply sim_bind; [apply IHlv; assumption|]. intros tg.
+        apply sim_bind; [apply read_sim; [exact Hlm|apply ghosts_nil]|]. intros.
+        apply sim_bind; [apply IHe0; assumption|]. intros.
+        apply sim_bind; [apply sim_lift|]. intros. apply write_sim; [exact Hlm|apply ghosts_nil].
+      * apply sim_bind; [apply IHe0; assumption|]. intros.
+        apply sim_bind; [apply IHlv; assumption|]. intros tg. apply assign_sim. exact Hlm.
+    + cbn [mexec exec]. apply sim_bind; [apply IHlv; assumption|]. intros tg.
+      apply sim_bind; [apply read_sim; [exact Hlm|apply ghosts_nil]|]. intros.
+      apply sim_bind; [apply sim_lift|]. intros. apply write_sim; [exact Hlm|apply ghosts_nil].
+    + cbn [mexec exec]. apply sim_bind; [apply IHe0; assumption|]. intros. apply sim_ret.
+    + destruct Hwf as [H1 [H2 H3]]. cbn [mexec exec].
+      apply sim_bind; [apply IHe0; assumption|]. intros v. destruct (v =? 0); apply IHb; assumption.
+    + destruct Hwf as [H1 H2]. cbn [mexec exec].
+      apply sim_bind; [apply IHe0; assumption|]. intros v. destruct (v =? 0); [apply sim_ret|].
+      apply sim_loop_step; [apply IHb; assumption|]. apply IHx; [cbn [wf_stmt]; split; assumption|exact Hlm].
+    + destruct Hwf as [H1 [H2 [H3 H4]]]. cbn [mexec exec]. apply block_sim.
+      apply sim_bind; [apply IHxl; assumption|]. intros _.
+      apply sim_bind; [apply IHe0; assumption|]. intros v. destruct (v =? 0); [apply sim_ret|].
+      apply sim_loop_step; [apply IHb; assumption|].
+      apply sim_bind; [apply IHxl; assumption|]. intros _.
+      apply IHx; [cbn [wf_stmt allP fold_right]; repeat split; assumption|exact Hlm].
+    + apply sim_lift.
+    + apply sim_lift.
+    + destruct e; cbn [mexec exec]; [|apply sim_lift]. cbn [wf_opt] in Hwf.
+      apply sim_bind; [apply IHe0; assumption|]. intros. apply sim_lift.
+    + cbn [mexec exec]. apply IHb; assumption.
+    + cbn [mexec exec]. apply sim_bind; [apply print_args_sim; apply IHl0; assumption|]. intros _.
+      destruct nl; [apply out_sim|apply sim_ret].
+Qed.
 End Refine.
+
+(* ------------------------------------------------------------------ whole programs *)
+Lemma assoc_in_fst {A} x (l : list (ident * A)) : assoc x l <> None -> In x (map fst l).
+Proof.
+  induction l as [|[y a] r IH]; cbn; [congruence|]. destruct (Nat.eqb x y) eqn:E.
+  - apply Nat.eqb_eq in E. intros _. left. congruence.
+  - intros H. right. apply IH. exact H.
+Qed.
+
+Theorem refines_program p L S fuel :
+  program_ok L S p -> snd (Print.run fuel p) <> Print.Failed EUnbound ->
+  mech_run true fuel p = Print.run fuel p.
+Proof.
+  intros [HSC Hmain] Hn. unfold Print.run, mech_run in *.
+  pose proof (refine_all (pfuncs p) L (map gname (pglobals p)) S HSC fuel) as [_ IHx].
+  assert (Hsim : sim L (map gname (pglobals p)) S [] [] (exec_list (mexec true (pfuncs p) fuel) (pmain p)) (exec_list (exec (pfuncs p) fuel) (pmain p))).
+  { apply exec_list_sim. eapply allP_impl; [|exact Hmain]. cbn. intros st _ Hst. apply IHx; [exact Hst|].
+    intros x. unfold bound_in. cbn. congruence. }
+  assert (HI : Inv L (map gname (pglobals p)) S (Print.init_state p)).
+  { constructor.
+    - eexists _, _. split; [reflexivity|]. intros x. cbn. congruence.
+    - intros x Hx. cbn in Hx. unfold Print.init_globals in Hx. apply assoc_in_fst in Hx.
+      rewrite map_rev, map_map in Hx. apply in_rev in Hx. cbn in Hx. exact Hx.
+    - intros g x. cbn. congruence. }
+  specialize (Hsim (Print.init_state p) HI).
+  change (emb [] [] (Print.init_state p)) with (Print.init_state p) in Hsim.
+  destruct (exec_list (exec (pfuncs p) fuel) (pmain p) (Print.init_state p)) as [c rs'] eqn:E. cbn [fst snd] in *.
+  destruct Hsim as [Hm _].
+  - intros ->. apply Hn. reflexivity.
+  - rewrite Hm. reflexivity.
+Qed.
